@@ -241,6 +241,28 @@ class Gen:
         if depth == 0 or r.random() < 0.25:
             a = r.choice(atoms)
             return tb.app("not", [a]) if r.random() < 0.35 else a
+        if self.uf and r.random() < 0.1:
+            # equality diamonds (or (and x=w w=z) (and x=y y=z)): proper ones, chains that share one end point only,
+            # three arms, an arm that is not a chain
+            ts = list(self.us) + [tb.uf("f", [u], "U") for u in self.us[:2]]
+            x, z, w, y, v, e2 = (r.sample(ts, 5) + [r.choice(ts)])[:6]
+            def chain(a, m, b): return tb.app("and", [tb.app("=", [a, m]), tb.app("=", [m, b])])
+            kind = r.choice(["proper", "proper", "one-end", "three", "three-bad", "swapped"])
+            if kind == "proper":
+                arms = [chain(x, w, z), chain(x, y, z)]
+            elif kind == "swapped":
+                arms = [chain(x, w, z), chain(z, y, x)]
+            elif kind == "one-end":
+                arms = [chain(x, w, z), chain(x, y, v)]
+            elif kind == "three":
+                arms = [chain(x, w, z), chain(x, y, z), chain(x, v, z)]
+            else:
+                arms = [chain(x, w, z), chain(x, y, z), r.choice(atoms)]
+            if r.random() < 0.3:
+                r.shuffle(arms)
+            d = tb.app("or", arms)
+            extra = tb.app("not", [tb.app("=", [x, z])])
+            return d if r.random() < 0.5 else tb.app("and", [d, extra])
         op = r.choice(["and", "or", "or", "or", "=>", "xor", "=", "ite", "not", "let"])
         if op in ("and", "or"):
             n = r.choice([2, 2, 3])
@@ -414,6 +436,38 @@ def interface_history(g, rng, queries=()):
         cmds.append({"c": "pop", "n": 1})
         cmds.append({"c": "check-sat"})
         cmds += [dict(q) for q in queries]
+    return cmds
+
+def sums_history(g, rng, queries=()):
+    """linear arithmetic without bounds on single variables: four to six atoms, each over two or three variables; the
+    simplex has to pivot several bound-free variables into the basis, and the model is read back from rows that
+    refer to each other"""
+    tb, S = g.tb, g.num
+    vs = list(g.nums)
+    def num(c): return tb.num(c, S)
+    atoms = []
+    for _ in range(rng.randint(4, 6)):
+        k = rng.choice([2, 2, 3])
+        parts = []
+        for v in rng.sample(vs, min(k, len(vs))):
+            c = rng.choice([1, 1, -1, -1, 2, -2, 3])
+            parts.append(v if c == 1 else tb.app("*", [num(c), v]))
+        t = tb.app("+", parts)
+        atoms.append(tb.app(rng.choice(["<=", ">=", "<=", ">=", "=", "<", ">"]), [t, num(rng.randint(-9, 16))]))
+    cmds = []
+    depth = 0
+    for i, a in enumerate(atoms):
+        f = a
+        if rng.random() < 0.15:
+            f = tb.app("or", [a, rng.choice(atoms)])
+        if rng.random() < 0.2:
+            cmds.append({"c": "push", "n": 1}); depth += 1
+        cmds.append({"c": "assert", "t": f, "nm": "", "inner": []})
+        if rng.random() < 0.35:
+            cmds.append({"c": "check-sat"}); cmds += [dict(q) for q in queries]
+    cmds.append({"c": "check-sat"}); cmds += [dict(q) for q in queries]
+    if depth:
+        cmds.append({"c": "pop", "n": 1}); cmds.append({"c": "check-sat"}); cmds += [dict(q) for q in queries]
     return cmds
 
 def dlgraph_history(g, rng, queries=(), boolean=True):
